@@ -89,6 +89,11 @@ func VerifMain() {
 	)
 	flag.Parse()
 	vfProp = *prop
+	if *bytex == "c04" {
+		vfQuietLogger()
+		vbC04Main(*shard, *nshards, *tier, *scn)
+		return
+	}
 	if *bytex != "" {
 		vfQuietLogger()
 		vbMain(*bytex, *shard, *nshards, *tier, *replay)
